@@ -56,6 +56,46 @@ func minDist(p geom.Point, r *geom.Bounds) float64 {
 	return sum
 }
 
+// minDistance is the square root of minDist, computed without squaring the
+// coordinate differences: the squares overflow for distances beyond 1e154,
+// which made every far-away entry look infinitely far and left the
+// nearest-neighbor searches without a result.
+func minDistance(p geom.Point, r *geom.Bounds) float64 {
+	dx, dy := 0.0, 0.0
+	if p.X < r.Min.X {
+		dx = p.X - r.Min.X
+	} else if p.X > r.Max.X {
+		dx = p.X - r.Max.X
+	}
+	if p.Y < r.Min.Y {
+		dy = p.Y - r.Min.Y
+	} else if p.Y > r.Max.Y {
+		dy = p.Y - r.Max.Y
+	}
+	return math.Hypot(dx, dy)
+}
+
+// minMaxDistance is the square root of minMaxDist, computed without squaring
+// the coordinate differences (see minDistance).
+func minMaxDistance(p geom.Point, r *geom.Bounds) float64 {
+	// the nearer and the farther side of r in each dimension
+	nearX, farX := r.Max.X, r.Max.X
+	if p.X <= (r.Min.X+r.Max.X)/2 {
+		nearX = r.Min.X
+	}
+	if p.X >= (r.Min.X+r.Max.X)/2 {
+		farX = r.Min.X
+	}
+	nearY, farY := r.Max.Y, r.Max.Y
+	if p.Y <= (r.Min.Y+r.Max.Y)/2 {
+		nearY = r.Min.Y
+	}
+	if p.Y >= (r.Min.Y+r.Max.Y)/2 {
+		farY = r.Min.Y
+	}
+	return math.Min(math.Hypot(p.X-nearX, p.Y-farY), math.Hypot(p.X-farX, p.Y-nearY))
+}
+
 // minMaxDist computes the minimum of the maximum distances from p to points
 // on r.  If r is the bounding box of some geometric objects, then there is
 // at least one object contained in r within minMaxDist(p, r) of p.
